@@ -32,7 +32,7 @@ EXPECT_OUTCOMES = ["vmdk-descriptor", "vmdk-handles", "hdd-storages"]
 
 KINDS = ["FLAT", "VMFS", "SPARSE", "VMFSSPARSE", "SESPARSE"]
 SIZES = [16, 24, 40, 4104]
-NAMES = ["plain", "with space", 'in"ner', "ünï-cödé", "emoji-\U0001F4BE"]
+NAMES = ["plain", "with space", 'in"ner', "ünï-cödé", "emoji-\U0001F4BE", "size=small & id#4"]
 
 
 def shards(tier):
@@ -59,13 +59,13 @@ def run_shard(shard, ctx):
         i, k = shard["slice"]
         combos = itertools.product(itertools.product(KINDS, SIZES), repeat=2)
         for n, ((k1, s1), (k2, s2)) in enumerate(sliced(combos, i, k)):
-            run_case({"kind": "vmdk", "extents": [[k1, s1, "RW", NAMES[n % 5]], [k2, s2, ("RW", "RDONLY")[n % 2],
-                                                                                 NAMES[(n // 5 + 1) % 5] + "2"]]}, ctx)
+            run_case({"kind": "vmdk", "extents": [[k1, s1, "RW", NAMES[n % 6]], [k2, s2, ("RW", "RDONLY")[n % 2],
+                                                                                 NAMES[(n // 6 + 1) % 6] + "2"]]}, ctx)
     elif kind == "vmdk3":
         i, k = shard["slice"]
         for n, ks in enumerate(sliced(itertools.product(KINDS, repeat=3), i, k)):
             sizes = [SIZES[(n + j) % 4] for j in range(3)]
-            run_case({"kind": "vmdk", "extents": [[ks[j], sizes[j], "RW", NAMES[(n + j) % 5] + str(j)] for j in range(3)]},
+            run_case({"kind": "vmdk", "extents": [[ks[j], sizes[j], "RW", NAMES[(n + j) % 6] + str(j)] for j in range(3)]},
                      ctx)
     elif kind == "handles":
         hk = ["sparse", "raw", "cowd", "sesparse"]
@@ -80,7 +80,7 @@ def run_shard(shard, ctx):
                               "sizes": [SIZES[(j + r) % 3] + j for j in range(r)]}, ctx)
 
 
-def _extent_image(kind, sectors, layer):
+def _extent_image(kind, sectors, layer, rot=0):
     """-> (Image, model) for one extent holding `sectors` sectors of guest data."""
     from mc.builders import vmdk as B
 
@@ -88,12 +88,14 @@ def _extent_image(kind, sectors, layer):
         return B.build_flat(sectors, layer, slack_sectors=9), B.model_flat(sectors, layer)
     grain = 8
     n = (sectors + grain - 1) // grain
-    states = [(DATA, HOLE, ZERO, DATA, DATA)[i % 5] for i in range(n)]
+    # the allocation pattern is rotated per extent: neighbouring extents never have the same tables at the same place
+    states = [(DATA, HOLE, ZERO, DATA, DATA)[(i + rot) % 5] for i in range(n)]
     if kind in ("VMFSSPARSE", "cowd"):
         states = [DATA if s == ZERO else s for s in states]
     idx = [i for i, s in enumerate(states) if s == DATA]
     slots = [None] * n
-    for p, i in enumerate(idx[::-1]):
+    order = idx[::-1] if rot % 2 == 0 else idx[1:] + idx[:1]
+    for p, i in enumerate(order):
         slots[i] = p
     if kind in ("SPARSE", "sparse"):
         img = B.build_hosted(states, slots, grain, 512, sectors, layer=layer)
@@ -164,7 +166,7 @@ def _case_vmdk(case, ctx, d, buf):
     bounds = []
     pos = 0
     for xi, (kind, sectors, access, name) in enumerate(case["extents"]):
-        img, m = _extent_image(kind, sectors, xi + 1)
+        img, m = _extent_image(kind, sectors, xi + 1, xi)
         fn = f"{name}-{'flat' if kind in ('FLAT', 'VMFS') else 's%03d' % (xi + 1)}.vmdk"
         img.write_to(os.path.join(d, fn))
         lines.append((access, sectors, kind, fn, 0 if kind == "FLAT" else None))
@@ -208,7 +210,7 @@ def _case_handles(case, ctx, buf):
     bounds = []
     pos = 0
     for xi, (kind, sectors) in enumerate(case["parts"]):
-        img, m = _extent_image(kind, sectors, xi + 1)
+        img, m = _extent_image(kind, sectors, xi + 1, xi)
         if kind == "raw":
             from mc.builders import vmdk as B
 
@@ -250,7 +252,8 @@ def _case_hdd(case, ctx, d, buf):
         else:
             spc = 8
             n = (sectors + spc - 1) // spc
-            states = [(DATA, HOLE, DATA)[i % 3] for i in range(n)]
+            # holes of storage k lie where storage k-1 holds data (a parent leaking across storages becomes visible)
+            states = [(DATA, HOLE, DATA)[(i + si) % 3] for i in range(n)]
             idx = [i for i, s in enumerate(states) if s == DATA]
             slots = [None] * n
             for p, i in enumerate(idx[::-1]):
